@@ -17,18 +17,21 @@ Idents == {<<>>, <<3>>, <<58>>, <<3, 58, 4>>, <<1>>}
 Names == {<<>>, <<<<9>>>>, <<<<10>>>>}
 Seps == {<<58>>, <<58, 58>>}
 Ctx == Construct(<<Rec(<<1>>, <<100>>, {<<2>>}, {}, NoPat)>>, <<58>>, TRUE).conv
+\* a context whose canonical prefix is the EMPTY string (default namespace) with the synonym 'a'
+Ctx2 == Construct(<<Rec(<<>>, <<100>>, {<<1>>}, {}, NoPat)>>, <<58>>, TRUE).conv
 Strings == {p \o s \o id : p \in Prefixes, s \in Seps \cup {<<>>}, id \in Idents}
 
 RInit == heap = {} /\ last = <<>>
 Put1(o) == /\ last' = o
            /\ heap' = IF IsVal(o) THEN heap \cup {o[2]} ELSE heap
 RNext == /\ Cardinality(heap) < MaxRefs
-         /\ \/ \E cls \in Classes, p \in Prefixes, id \in Idents, n \in Names, cx \in {<<>>, <<Ctx>>} : Put1(Build(cls, p, id, n, cx))
+         /\ \/ \E cls \in Classes, p \in Prefixes, id \in Idents, n \in Names, cx \in {<<>>, <<Ctx>>, <<Ctx2>>} : Put1(Build(cls, p, id, n, cx))
             \/ \E cls \in Classes, s \in Strings, sep \in Seps, n \in Names : Put1(FromCurie(cls, s, sep, n, <<>>))
             \/ \E cls \in Classes, s \in Strings : Put1(ValidateStr(cls, s, <<>>))
 RSpec == RInit /\ [][RNext]_rvars
 Inv_C15 == /\ \A r \in heap : P_C15_roundtrip(r)
            /\ P_C15_order(heap)
 Inv_C15split == \A cls \in Classes, s \in Strings, sep \in Seps, n \in Names : P_C15_split(cls, s, sep, n)
-Inv_C15ctx == \A cls \in Classes, p \in Prefixes \cup {<<3>>}, id \in Idents, n \in Names : P_C15_ctx(cls, p, id, n, Ctx)
+Inv_C15ctx == \A cls \in Classes, p \in Prefixes \cup {<<3>>}, id \in Idents, n \in Names :
+                 P_C15_ctx(cls, p, id, n, Ctx) /\ P_C15_ctx(cls, p, id, n, Ctx2)
 =============================================================================
